@@ -107,7 +107,12 @@ def random_det_model(rng, closed=False, ns=None, nparams=None, positive=False):
 def time_grid(rng, tend, uniform=None, special=None):
     """grid[0] is the initial time, grid[1:] the requested times.  special: 'origin' -- the first requested time IS the
     initial time (the whole linspace(t0, T, n) handed over, as the package's own examples do); 'repeat' -- one requested
-    time occurs twice"""
+    time occurs twice; 'int' -- whole-number requested times (handed over as Python ints / an integer array by the caller)
+    after a fractional initial time"""
+    if special == "int":
+        last = max(3, int(tend))
+        ks = sorted(rng.sample(range(1, last + 1), rng.randint(2, min(last, 6))))
+        return np.array([rng.choice([0.5, 0.25, 0.75])] + [float(k) for k in ks])
     npts = rng.randint(4, 10)
     if uniform is None:
         uniform = rng.random() < 0.5
@@ -234,8 +239,18 @@ def entry_calls(rng, quick):
     return out
 
 
-def perform_call(m, entry, method, full_output, include_origin, x0, grid):
-    """returns (rows returned as 2-d array, step snapshots, error)"""
+def perform_call(m, entry, method, full_output, include_origin, x0, grid, times_as=None):
+    """returns (rows returned as 2-d array, step snapshots, error).  times_as: the container / dtype in which the requested
+    times are handed over (None: float array; 'int-list', 'int-array', 'list', 'tuple')"""
+    full_grid = grid
+    if times_as is not None:
+        req = {"int-list": lambda g: [int(v) for v in g], "int-array": lambda g: np.array([int(v) for v in g]),
+               "list": lambda g: [float(v) for v in g], "tuple": lambda g: tuple(float(v) for v in g)}[times_as](grid[1:])
+
+        class _G:        # grid[0] and grid[1:] as used below
+            def __getitem__(self, k):
+                return full_grid[0] if k == 0 else req
+        grid = _G()
     rec = StepRecorder()
     rec.install()
     srec = SetupRecorder()
